@@ -190,6 +190,10 @@ WF_SCENARIOS = {
     'stopSuccess': ('succeedWorkflow', 'stop', 'SUCCESS'),
     'stopError': ('failWorkflow', 'stop', 'ERROR'),
     'stopCancel': ('cancelWorkflow', 'stop', 'CANCELLED'),
+    # a plain resume_workflow (no generated script: monitor only).  On a RUNNING execution it is a no-op; with a
+    # stop committed before / during it, the finished row must stay as the stop left it ("leaves ERROR or
+    # CANCELLED only through an explicit rerun")
+    'resume': (None, 'resume', None),
 }
 WF_INTERFERERS = ['stop:CANCELLED', 'stop:ERROR', 'stop:SUCCESS', 'pause', 'check']
 SCRIPT_MSG = 'script-msg'
@@ -240,6 +244,8 @@ class WfWorld(object):
         script, how, arg = WF_SCENARIOS[scenario]
         if how == 'stop':
             return lambda: w.op('stop_workflow', self.wid, arg, SCRIPT_MSG)
+        if how == 'resume':
+            return lambda: w.op('resume_workflow', self.wid)
         verdict = {None: None, 'error': ('error', 'boom'), 'cancel': ('cancel', None)}[arg]
         oracle = (lambda world, d: verdict) if verdict else None
         for _ in range(12):
@@ -393,15 +399,16 @@ def wf_model_intf(intf, scen_script, solo_row, row0):
     raise ValueError(intf)
 
 
-def wf_monitor(scenario, intf, first, r, solo_row):
+def wf_monitor(scenario, intf, first, r, solo_row, judge_first=True):
     """the property sentences read on the real rows; returns [(what, signature)].
-    first = the interferer committed before the script's first read: that is the sequential
-    composition of two transactions (the business of the transaction-granularity models and
-    their findings), not a race below it: not judged here"""
+    first = the interferer committed before the script's first read, i.e. the sequential composition
+    of the two transactions: judged as well (since repo fix ce9b9520 no sequential composition of
+    these transactions alters a finished row; seeded/C03-r2 - a plain resume reviving a finished
+    execution - shows exactly there)"""
     hits = []
     a = r['after_intf']
     row = r['row']
-    if first:
+    if first and not judge_first:
         return hits
     if a is not None and a[0] == 'PAUSED' and row[0] == 'ERROR' and row[1] == FORCE_FAIL:
         hits.append(('execution PAUSED by the operator while its completion check was in flight is forced '
@@ -448,14 +455,14 @@ def run_wf_cases(ctx, scenarios=None, interferers=None, stream='race-wf', on_vio
             continue
         row0, solo_row = solo['row0'], solo['row']
         try:
-            positions = model_positions(scripts[sname], solo['log']) if scripts else \
+            positions = model_positions(scripts[sname], solo['log']) if (scripts and sname) else \
                 [(e['n'], None) for e in significant(solo['log'])]
         except ValueError as e:
             ctx.disagree(stream, {'scenario': scenario, 'shape': True}, str(e),
                          [(x['kind'], x['sig']) for x in solo['log']])
             positions = [(e['n'], None) for e in significant(solo['log'])]
         # solo correspondence: the model's uninterfered run
-        if drv is not None:
+        if drv is not None and sname:
             m = drv.call('race.run', {'script': sname, 'vars': wf_vars(solo_row),
                                       'row': {'alive': True, 'f': row0}, 'sched': []})
             real = {'row': solo_row, 'writes': norm_writes(writes(solo['log'])), 'aborted': False}
@@ -485,7 +492,7 @@ def run_wf_cases(ctx, scenarios=None, interferers=None, stream='race-wf', on_vio
                 for what, sig in wf_monitor(scenario, intf, n == positions[0][0], r, solo_row):
                     rep = dict(case, kind='race', real=real, after_interferer=r['after_intf'], row0=row0)
                     ctx.violation(what, rep, sig)
-                if drv is None or gap is None:
+                if drv is None or gap is None or not sname:
                     continue
                 m = drv.call('race.run', {
                     'script': sname, 'vars': wf_vars(solo_row),
@@ -506,6 +513,10 @@ def run_chunk(ctx, family='wf', scenarios=None, interferers=None):
         run_wf_cases(ctx, scenarios, interferers)
     elif family == 'action':
         run_action_cases(ctx)
+    elif family == 'task':
+        run_task_cases(ctx)
+    elif family == 'capture':
+        run_job_cases(ctx)
     else:
         run_cron_cases(ctx)
 
@@ -798,6 +809,351 @@ def run_action_cases(ctx, stream='race-action'):
                 'sched': [[gap, [{'script': sname, 'vars': [isolo[0], None, isolo[2]]}]]]})
             real = {'row': r['row'], 'rejected': bool(r['errors'])}
             mod = {'row': m['db']['f'], 'rejected': m['status'] == 'aborted'}
+            if real != mod:
+                ctx.disagree(stream, case, mod, real)
+            ctx.sample({'stream': stream, 'case': case, 'real': real})
+
+
+# =====================================================================================
+# task row: racing completions of one task (C03 task final, C06 dispatch once, C09 report_once
+# parent side)
+# =====================================================================================
+TASK_TABLE = 'task_executions_v2'
+TASK_YAML = """
+version: '2.0'
+race_t:
+  tasks:
+    t1:
+      action: std.echo output="hello"
+      on-success:
+        - t2
+    t2:
+      action: std.noop
+race_parent:
+  tasks:
+    p1:
+      workflow: race_child
+      on-success:
+        - p2
+    p2:
+      action: std.noop
+race_child:
+  tasks:
+    c1:
+      action: std.noop
+"""
+
+
+class TaskWorld(object):
+    def __init__(self, seed=0):
+        from harness import engine_driver
+        self.w = engine_driver.EngineWorld(seed=seed, id_mode='seq')
+        from mistral.db.v2.sqlalchemy import models
+        self.models = models
+        self.tap = tap()
+        self.tap.watch(models.TaskExecution, TASK_TABLE, 'state')
+        self.tid = None
+
+    def _fresh_read(self, fn):
+        from mistral.db.v2 import api as db_api
+        from mistral_lib import utils
+        from mistral.db.sqlalchemy import base as db_base
+        names = [db_base._DB_SESSION_THREAD_LOCAL_NAME, db_base._TX_SCOPED_CACHE_THREAD_LOCAL_NAME]
+        saved = [utils.get_thread_local(n) for n in names]
+        for n in names:
+            utils.set_thread_local(n, None)
+        was = self.tap.in_intf
+        self.tap.in_intf = True
+        try:
+            with db_api.transaction(read_only=True):
+                return fn(db_api)
+        finally:
+            self.tap.in_intf = was
+            for n, v in zip(names, saved):
+                utils.set_thread_local(n, v)
+
+    def prepare(self, scenario):
+        """returns (script, interferer): two real transactions that both complete the SAME task"""
+        from mistral_lib import actions as ml
+        from mistral.db.v2 import api as db_api
+        from mistral.engine import post_tx_queue, task_handler
+        from mistral import context as auth_context
+        w = self.w
+        w._reset()
+        w.create_workflows(TASK_YAML)
+        eng = w.engine
+        if scenario == 'action-vs-fail':
+            w.start_workflow('race_t')
+            for _ in range(8):
+                hit = [x for k, x in w.enabled() if k == 'p' and x.kind == 'action']
+                if hit:
+                    break
+                w.deliver(w.enabled()[0])
+            aid = hit[0].data['action_ex_id']
+            self.tid = self._fresh_read(lambda d: d.get_action_execution(aid).task_execution_id)
+            tid = self.tid
+
+            @post_tx_queue.run
+            def other():
+                with db_api.transaction():
+                    task_handler.complete_task(db_api.get_task_execution(tid), 'ERROR', 'timeout')
+
+            def intf():
+                auth_context.set_ctx(w.ctx)
+                other()
+                self.after_intf = self.row()
+                self.tasks_after_intf = self.n_tasks()
+            return (lambda: w.op('on_action_complete', aid, ml.Result(data='ok'))), intf
+        if scenario == 'child-result-twice':
+            w.start_workflow('race_parent')
+            item = None
+            for _ in range(30):
+                hit = [(k, x) for k, x in w.enabled() if k == 'p' and x.kind == 'rpc' and
+                       x.data['method'] == 'on_action_complete' and x.data['kwargs'].get('wf_action')]
+                if hit:
+                    item = hit[0]
+                    break
+                en = w.enabled()
+                if not en:
+                    break
+                w.deliver(en[0])
+            if item is None:
+                raise RuntimeError('child result message never became pending')
+            kw = dict(item[1].data['kwargs'])
+            cid = kw.get('action_ex_id')
+            self.tid = self._fresh_read(lambda d: d.get_workflow_execution(cid).task_execution_id)
+
+            def intf():
+                auth_context.set_ctx(w.ctx)
+                try:
+                    eng.on_action_complete(**kw)
+                except Exception as e:
+                    self.intf_error = type(e).__name__
+                self.after_intf = self.row()
+                self.tasks_after_intf = self.n_tasks()
+            return (lambda: w.deliver(item)), intf
+        raise ValueError(scenario)
+
+    def row(self):
+        def f(d):
+            t = d.get_task_execution(self.tid)
+            return [t.state, t.state_info, _jd(t.next_tasks), bool(t.processed), bool(t.has_next_tasks),
+                    bool(t.error_handled)]
+        return self._fresh_read(f)
+
+    def n_tasks(self):
+        return self._fresh_read(lambda d: len(d.get_task_executions()))
+
+    def run(self, scenario, with_intf=False, at=None):
+        script, intf = self.prepare(scenario)
+        row0 = self.row()
+        n0 = self.n_tasks()
+        self.after_intf = None
+        self.tasks_after_intf = None
+        self.intf_error = None
+        n_err = len(self.w.errors)
+        self.tap.start(inject_at=at, injector=intf if with_intf else None)
+        try:
+            script()
+        finally:
+            log = self.tap.stop()
+        errs = self.w.errors[n_err:]
+        return {'row0': row0, 'row': self.row(), 'log': log, 'after_intf': self.after_intf,
+                'n0': n0, 'n': self.n_tasks(), 'n_after_intf': self.tasks_after_intf,
+                'injected': self.tap.injected, 'errors': [(e['type'], e['declared']) for e in errs]}
+
+    def solo_intf(self, scenario):
+        _, intf = self.prepare(scenario)
+        self.after_intf = None
+        self.tap.in_intf = True
+        try:
+            intf()
+        finally:
+            self.tap.in_intf = False
+        return self.after_intf
+
+
+def task_vars(row):
+    """script variables of taskComplete from a solo final row"""
+    return [row[0], row[1], row[2], None, row[4], row[5], None, None]
+
+
+def run_task_cases(ctx, stream='race-task'):
+    from vlib import core
+    from translate import race_scripts
+    try:
+        scripts, _ = race_scripts.scripts(core.REPO)
+    except Exception:
+        scripts = None
+    W = TaskWorld(seed=ctx.seed)
+    drv = ctx.driver() if scripts is not None else None
+    sname = 'taskComplete'
+    for scenario in ('action-vs-fail', 'child-result-twice'):
+        solo = W.run(scenario)
+        isolo = W.solo_intf(scenario)
+        row0, solo_row = solo['row0'], solo['row']
+        try:
+            positions = model_positions(scripts[sname], solo['log']) if scripts else \
+                [(e['n'], None) for e in significant(solo['log'])]
+        except ValueError as e:
+            ctx.disagree(stream, {'shape': True, 'scenario': scenario}, str(e),
+                         [(x['kind'], x['sig']) for x in solo['log']])
+            positions = [(e['n'], None) for e in significant(solo['log'])]
+        for (n, gap) in positions:
+            r = W.run(scenario, True, n)
+            case = {'family': 'task', 'script': sname, 'scenario': scenario, 'position': n, 'gap': gap,
+                    'interferer': 'complete_task(ERROR)' if scenario == 'action-vs-fail' else 'the same child result',
+                    'statement': next((e['sql'][:60] for e in solo['log'] if e['n'] == n), None)}
+            ctx.count(stream, 'scenario:' + scenario)
+            if not r['injected']:
+                ctx.count(stream, 'not-injected')
+                continue
+            ctx.evaluated(stream, [scenario, n], nontrivial=True)
+            a = r['after_intf']
+            first = n == positions[0][0]
+            if not first and a is not None and a[0] in FINAL + ('SKIPPED',):
+                if r['row'] != a:
+                    ctx.violation(
+                        'task completed by one transaction (%r) was altered by a second completion of the same '
+                        'task handled concurrently: now %r' % (a, r['row']),
+                        dict(case, kind='race', real={'row': r['row'], 'after_interferer': a, 'row0': row0}),
+                        {'kind': 'completed-task-altered-by-racing-completion', 'scenario': scenario})
+                elif r['n'] != r['n_after_intf']:
+                    ctx.violation(
+                        'the completion that lost the race on the task row still dispatched next tasks: %d task '
+                        'executions after the winner, %d at the end' % (r['n_after_intf'], r['n']),
+                        dict(case, kind='race', real={'row': r['row'], 'n': r['n'], 'n_after_interferer': r['n_after_intf']}),
+                        {'kind': 'next-tasks-dispatched-twice', 'scenario': scenario})
+            if drv is None or gap is None:
+                continue
+            m = drv.call('race.run', {
+                'script': sname, 'vars': task_vars(solo_row), 'row': {'alive': True, 'f': row0},
+                'sched': [[gap, [{'script': sname, 'vars': task_vars(isolo)}]]]})
+            real = {'row': r['row'], 'dispatched': r['n'] != (r['n_after_intf'] if r['n_after_intf'] is not None else r['n0'])}
+            mod = {'row': m['db']['f'], 'dispatched': 4 in m['emitted']}
+            if real != mod:
+                ctx.disagree(stream, case, mod, real)
+            ctx.sample({'stream': stream, 'case': case, 'real': real})
+
+
+# =====================================================================================
+# scheduled job row: N schedulers capturing the same candidate (C13)
+# =====================================================================================
+JOB_TABLE = 'scheduled_jobs_v2'
+
+
+class JobWorld(object):
+    def __init__(self, seed=0):
+        from harness import engine_driver
+        self.w = engine_driver.EngineWorld(seed=seed, id_mode='seq')
+        from mistral.db.v2.sqlalchemy import models
+        self.tap = tap()
+        self.tap.watch(models.ScheduledJob, JOB_TABLE, 'captured_at')
+
+    def prepare(self):
+        from mistral.scheduler import base as sb
+        w = self.w
+        w._reset()
+        job = sb.SchedulerJob(run_after=0, func_name='mistral.tests.unit.scheduler.test_default_scheduler.target',
+                              func_args={})
+        w.scheduler._persist_job(job)
+        w.tick(3600)
+
+    def capture_pass(self):
+        """the REAL DefaultScheduler._process_store_jobs of a scheduler instance of its own (threads never
+        started): candidates read and captured in one transaction; what it would then invoke is recorded
+        instead of being invoked and deleted.  Returns [True] if this scheduler would invoke the job."""
+        from oslo_config import cfg
+        from mistral.scheduler import default_scheduler as ds
+        s = ds.DefaultScheduler(cfg.CONF.scheduler)
+        invoked = []
+        s._prepare_and_invoke_job = lambda job: invoked.append(job.id)
+        s._delete_scheduled_job = lambda job: None
+        s._process_store_jobs()
+        return [bool(invoked)]
+
+    def rows(self):
+        from mistral.db.v2 import api as db_api
+        was = self.tap.in_intf
+        self.tap.in_intf = True
+        try:
+            with db_api.transaction(read_only=True):
+                return [None if j.captured_at is None else 1 for j in db_api.get_scheduled_jobs()]
+        finally:
+            self.tap.in_intf = was
+
+    def run(self, gaps):
+        n = len(gaps) + 1
+        self.prepare()
+        won = [None] * n
+        logs = [None] * n
+
+        def runner(i):
+            def go():
+                r = self.capture_pass()
+                won[i] = bool(r and r[0])
+            if i == n - 1:
+                return lambda: self.tap.nested(go)
+            return lambda: self.tap.nested(go, inject_at=gaps[i], injector=inner(i + 1))
+
+        def inner(i):
+            def f():
+                _, logs[i] = runner(i)()
+            return f
+        self.tap.start()
+        try:
+            _, logs[0] = runner(0)()
+        finally:
+            self.tap.stop()
+        return {'won': won, 'logs': logs, 'rows': self.rows()}
+
+
+def run_job_cases(ctx, stream='race-capture'):
+    import itertools
+    from vlib import core
+    from translate import race_scripts
+    try:
+        scripts, _ = race_scripts.scripts(core.REPO)
+    except Exception:
+        scripts = None
+    W = JobWorld(seed=ctx.seed)
+    drv = ctx.driver() if scripts is not None else None
+    sname = 'captureJob'
+    solo = W.run([])
+    sig = significant(solo['logs'][0])
+    npos = len(sig)
+    for nprocs in (2, 3):
+        for gaps in itertools.product(range(npos), repeat=nprocs - 1):
+            ords = [sig[g]['n'] for g in gaps]
+            r = W.run(ords)
+            case = {'family': 'capture', 'script': sname, 'processors': nprocs, 'positions': list(gaps),
+                    'statements': [sig[g]['sql'][:50] for g in gaps]}
+            ctx.count(stream, 'processors:%d' % nprocs)
+            ctx.evaluated(stream, [nprocs, list(gaps)], nontrivial=True)
+            wins = sum(1 for x in r['won'] if x)
+            ctx.count(stream, 'wins:%d' % wins)
+            real = {'won': r['won'], 'rows': r['rows']}
+            if wins > 1:
+                ctx.violation('%d schedulers that selected the same scheduled job (captured_at null) all captured it: '
+                              'the job would be invoked %d times' % (wins, wins),
+                              dict(case, kind='race', real=real),
+                              {'kind': 'job-captured-twice', 'script': sname})
+            if drv is None:
+                continue
+            stmt_idx = [i for i, s in enumerate(scripts[sname]) if s[0] in ('read', 'cas', 'delete')]
+            if len(stmt_idx) != npos:
+                ctx.disagree(stream, dict(case, shape=True), stmt_idx, [e['kind'] for e in sig])
+                continue
+            n0 = len(scripts[sname])
+            sched = []
+            for i, g in enumerate(gaps):
+                sched += [i] * stmt_idx[g]
+            sched += [nprocs - 1] * (n0 + 2)
+            for i in reversed(range(nprocs - 1)):
+                sched += [i] * (n0 + 2)
+            m = drv.call('race.many', {'row': {'alive': True, 'f': [None]},
+                                       'procs': [{'script': sname, 'vars': [1]}] * nprocs, 'sched': sched})
+            mod = {'won': [p['won'] for p in m['procs']], 'rows': [1 if m['db']['f'][0] is not None else None]}
             if real != mod:
                 ctx.disagree(stream, case, mod, real)
             ctx.sample({'stream': stream, 'case': case, 'real': real})
